@@ -1028,8 +1028,79 @@ def run_build_case(spec: dict) -> dict:
             "shape": [len(model.steps), sum(1 for s in model.steps if s.amend_inp), spec["nexternal"]]}
 
 
+def api_amend_oracle(ctx):
+    """The step's side of `amend()` (the simulated director replaces `api.py`, so this glue is exercised here with
+    the real function and a captured RPC client): when the director answers that the inputs are not available the
+    call raises `InputNotFoundError` and remembers nothing (a later call asks again); when it answers "carry on" but
+    an input is not on disk the call raises too; a directory is rejected before anything is sent."""
+    import apicap
+    from stepup.core.exceptions import InputNotFoundError
+
+    with apicap.project(files=("tool.py", "src.txt", "late.txt")) as base:
+        # 1. "not available": raises, and the same request is sent again by the next call
+        client = apicap.make_client(answers={"amend_step": False})
+        with apicap.step_process(base, client=client) as (api, _):
+            outcomes = []
+            for _ in range(2):
+                try:
+                    api.amend(inp=["late.txt"], env=["VAR_X"])
+                    outcomes.append("returned")
+                except InputNotFoundError:
+                    outcomes.append("InputNotFoundError")
+                except Exception as exc:  # noqa: BLE001
+                    outcomes.append(type(exc).__name__)
+            nsent = sum(1 for c in client.calls if c[0] == "amend_step")
+        ctx.stats.count("api-amend:refused")
+        if outcomes != ["InputNotFoundError", "InputNotFoundError"] or nsent != 2:
+            ctx.finding(Finding(PID, "amend-refusal-ignored-by-client",
+                                f"the director answered carry_on=False twice; amend() {outcomes}, requests sent: {nsent} "
+                                "(a refused amendment must stop the step and must be asked again)",
+                                {"outcomes": outcomes, "requests": nsent}))
+        # 2. "carry on" although the file is not there (e.g. removed since): the client still refuses to go on
+        client = apicap.make_client(answers={"amend_step": True})
+        with apicap.step_process(base, client=client) as (api, _):
+            try:
+                api.amend(inp=["nowhere.txt"])
+                got = "returned"
+            except Exception as exc:  # noqa: BLE001
+                got = type(exc).__name__
+        ctx.stats.count("api-amend:accepted-but-missing")
+        if got == "returned":
+            ctx.finding(Finding(PID, "amend-accepted-input-missing-on-disk",
+                                "amend(inp='nowhere.txt') returned although the file does not exist", {"outcome": got}))
+        # 3. accepted and present: returns, and the same amendment is not sent twice
+        client = apicap.make_client(answers={"amend_step": True})
+        with apicap.step_process(base, client=client) as (api, _):
+            try:
+                api.amend(inp=["src.txt"], out=["made.txt"])
+                api.amend(inp=["src.txt"], out=["made.txt"])
+                got = "returned"
+            except Exception as exc:  # noqa: BLE001
+                got = type(exc).__name__
+            nsent = sum(1 for c in client.calls if c[0] == "amend_step")
+        ctx.stats.count("api-amend:accepted")
+        if got != "returned" or nsent != 1:
+            ctx.finding(Finding(PID, "amend-accepted-client-misbehaves",
+                                f"an accepted amendment repeated: {got}, requests sent {nsent}", {"outcome": got, "requests": nsent}))
+        # 4. a directory as a dynamic input is rejected before the director hears of it
+        client = apicap.make_client(answers={"amend_step": True})
+        with apicap.step_process(base, client=client) as (api, _):
+            try:
+                api.amend(inp=["sub/"])
+                got = "returned"
+            except Exception as exc:  # noqa: BLE001
+                got = type(exc).__name__
+            nsent = sum(1 for c in client.calls if c[0] == "amend_step")
+        ctx.stats.count("api-amend:directory")
+        if got == "returned" or nsent:
+            ctx.finding(Finding(PID, "amend-directory-input-accepted",
+                                f"amend(inp='sub/') {got}, requests sent {nsent}", {"outcome": got, "requests": nsent}))
+
+
 async def search(ctx):
     import simpool
+
+    api_amend_oracle(ctx)
 
     ncase = ctx.budget(1500, 30000)
     specs = [make_spec(ctx.seed, i, ctx.tier) for i in range(ncase)]
